@@ -9,7 +9,7 @@ CONSTANTS
   TimeoutTicks = 2
   MaxTicks = 3
   Weaken = "none"
-INVARIANTS ObsFidelity ObsReturnInTime ObsPeerTold ObsNoWorkerLeft
+INVARIANTS ObsFidelity ObsNoHang ObsReturnInTime ObsPeerTold ObsNoWorkerLeft
 CONSTRAINT HW
 POSTCONDITION Accepted
 CHECK_DEADLOCK FALSE
